@@ -36,9 +36,16 @@ Proof. induction l1 as [|x xs IH]; cbn; [discriminate|]. destruct (f x); auto. Q
 (* ------------------------------------------------------------------ *)
 Definition keys_ok (st : fs_state) : Prop := forall k, In k (st_keys st) <-> In k (map fst (st_phf st)).
 
+(* a key is accounted for: it is in the map, or an earlier case-insensitive spelling matches it *)
+Definition covered (k : str) (st : fs_state) : Prop := In k (st_keys st) \/ shadowed k st = true.
+(* every recorded case-insensitive spelling has its guard arm *)
+Definition ci_ok (st : fs_state) : Prop :=
+  forall c, In c (st_ci st) -> exists j ps, In (ArmGuard c j ps) (st_arms st).
+
 Record ext (Q : str -> nat * params -> Prop) (st st' : fs_state) : Prop := {
-  e_keys : forall k, In k (st_keys st) -> In k (st_keys st');
+  e_keys : forall k, covered k st -> covered k st';
   e_ok : keys_ok st -> keys_ok st';
+  e_ci : ci_ok st -> ci_ok st';
   e_phf : forall k tgt, In (k, tgt) (st_phf st') -> In (k, tgt) (st_phf st) \/ Q k tgt
 }.
 
@@ -46,9 +53,9 @@ Lemma ext_refl Q st : ext Q st st.
 Proof. constructor; auto. Qed.
 Lemma ext_mono (Q Q' : str -> nat * params -> Prop) st st' :
   (forall k t, Q k t -> Q' k t) -> ext Q st st' -> ext Q' st st'.
-Proof. intros HQ [A B C]. constructor; auto. intros k t H. destruct (C k t H); auto. Qed.
+Proof. intros HQ [A B D C]. constructor; auto. intros k t H. destruct (C k t H); auto. Qed.
 Lemma ext_trans Q st1 st2 st3 : ext Q st1 st2 -> ext Q st2 st3 -> ext Q st1 st3.
-Proof. intros [A B C] [A' B' C']. constructor; auto.
+Proof. intros [A B D C] [A' B' D' C']. constructor; auto.
   intros k t H. destruct (C' k t H) as [H1|H1]; auto. Qed.
 
 (* fields untouched by the per-spelling step *)
@@ -61,27 +68,48 @@ Proof. unfold same_fall. intros (A1 & A2 & A3) (B1 & B2 & B3). repeat split; con
 
 Lemma add_key_props k tgt st :
   ext (fun k' t' => k' = k /\ t' = tgt) st (fs_add_key k tgt st) /\
-  In k (st_keys (fs_add_key k tgt st)) /\
+  covered k (fs_add_key k tgt st) /\
   st_arms (fs_add_key k tgt st) = st_arms st /\
   same_fall st (fs_add_key k tgt st).
 Proof.
-  unfold fs_add_key. destruct (mem_str k (st_keys st)) eqn:M.
-  - split; [apply ext_refl|]. split; [apply mem_str_In; exact M|]. split; [reflexivity|apply same_fall_refl].
-  - split; [|split; [cbn; auto|split; [reflexivity|repeat split]]].
+  unfold fs_add_key. destruct (shadowed k st) eqn:S; cbn [orb].
+  { split; [apply ext_refl|]. split; [right; exact S|]. split; [reflexivity|apply same_fall_refl]. }
+  destruct (mem_str k (st_keys st)) eqn:M.
+  - split; [apply ext_refl|]. split; [left; apply mem_str_In; exact M|]. split; [reflexivity|apply same_fall_refl].
+  - split; [|split; [left; cbn; auto|split; [reflexivity|repeat split]]].
     constructor; cbn [st_keys st_phf].
-    + intros k' H. right. exact H.
+    + intros k' [H|H]; [left; cbn [st_keys]; right; exact H|right; exact H].
     + intros OK k'. cbn [st_keys st_phf]. rewrite map_app, in_app_iff. cbn. rewrite <- (OK k'). tauto.
+    + intros H c Hc. exact (H c Hc).
     + intros k' t' H. apply in_app_iff in H as [H|[H|[]]]; [left; exact H|right]. inversion H; auto.
 Qed.
 
 Lemma add_arm_props a st :
   ext (fun _ _ => False) st (fs_add_arm a st) /\
-  st_keys (fs_add_arm a st) = st_keys st /\
   st_arms (fs_add_arm a st) = st_arms st ++ [a] /\
   same_fall st (fs_add_arm a st).
 Proof.
-  unfold fs_add_arm. split; [|split; [reflexivity|split; [reflexivity|repeat split]]].
+  unfold fs_add_arm. split; [|split; [reflexivity|repeat split]].
   constructor; cbn [st_keys st_phf]; auto.
+  intros H c Hc. destruct (H c Hc) as (j & ps & I). exists j, ps. cbn [st_arms]. apply in_app_iff. left. exact I.
+Qed.
+
+(* recording a case-insensitive spelling together with its guard arm *)
+Lemma add_ci_arm_props lit idx ps st :
+  let st' := fs_add_arm (ArmGuard lit idx ps) (fs_add_ci lit st) in
+  ext (fun _ _ => False) st st' /\
+  covered lit st' /\
+  st_arms st' = st_arms st ++ [ArmGuard lit idx ps] /\
+  same_fall st st'.
+Proof.
+  cbv zeta. unfold fs_add_arm, fs_add_ci. cbn [st_default_seen st_fall st_custom_err st_keys st_ci st_phf st_arms].
+  split; [|split; [|split; [reflexivity|repeat split]]].
+  - constructor; cbn [st_keys st_phf]; auto.
+    + intros k [H|H]; [left; exact H|right]. unfold shadowed in *. cbn [st_ci]. rewrite existsb_app, H. reflexivity.
+    + intros H c Hc. cbn [st_ci st_arms] in *. apply in_app_iff in Hc as [Hc|[<-|[]]].
+      * destruct (H c Hc) as (j & qs & I). exists j, qs. apply in_app_iff. left. exact I.
+      * exists idx, ps. apply in_app_iff. right. left. reflexivity.
+  - right. unfold shadowed. cbn [st_ci]. rewrite existsb_app. cbn [existsb]. rewrite eq_ic_str_refl, orb_true_r. reflexivity.
 Qed.
 
 (* the arms one variant contributes *)
@@ -100,7 +128,7 @@ Proof. unfold lit_matches. destruct ci; [apply eq_ic_str_refl|apply str_eqb_refl
 Lemma ser_step use_phf ci idx ps st lit :
   let st' := fs_serialization use_phf ci idx ps st lit in
   ext (QS use_phf ci idx ps [lit]) st st' /\
-  (use_phf = true -> In lit (st_keys st')) /\
+  (use_phf = true -> covered lit st') /\
   st_arms st' = st_arms st ++ arm_of use_phf ci idx ps lit /\
   same_fall st st'.
 Proof.
@@ -115,7 +143,7 @@ Proof.
       set (st2 := fs_add_key (lower_str lit) (idx, ps) st1) in *.
       destruct (add_key_props (upper_str lit) (idx, ps) st2) as (E3 & I3 & A3 & F3).
       set (st3 := fs_add_key (upper_str lit) (idx, ps) st2) in *.
-      destruct (add_arm_props (ArmGuard lit idx ps) st3) as (E4 & K4 & A4 & F4).
+      destruct (add_ci_arm_props lit idx ps st3) as (E4 & _ & A4 & F4). cbv zeta in E4, A4, F4.
       split; [|split; [|split]].
       * eapply ext_trans; [exact E1'|]. eapply ext_trans; [|eapply ext_trans].
         -- eapply ext_mono; [|exact E2]. intros k t [-> ->]. split; [reflexivity|]. split; [reflexivity|].
@@ -123,13 +151,13 @@ Proof.
         -- eapply ext_mono; [|exact E3]. intros k t [-> ->]. split; [reflexivity|]. split; [reflexivity|].
            exists lit. split; [left; reflexivity|]. cbn. apply eq_ic_upper_str.
         -- eapply ext_mono; [|exact E4]. intros k t [].
-      * intros _. rewrite K4. apply (e_keys _ _ _ E3). apply (e_keys _ _ _ E2). exact I1.
+      * intros _. apply (e_keys _ _ _ E4). apply (e_keys _ _ _ E3). apply (e_keys _ _ _ E2). exact I1.
       * rewrite A4, A3, A2, A1. reflexivity.
       * eapply same_fall_trans; [exact F1|]. eapply same_fall_trans; [exact F2|].
         eapply same_fall_trans; [exact F3|exact F4].
     + split; [exact E1'|]. split; [intros _; exact I1|]. split; [rewrite A1, app_nil_r; reflexivity|exact F1].
   - cbn zeta. set (a := if ci then ArmGuard lit idx ps else ArmExact lit idx ps).
-    destruct (add_arm_props a st) as (E4 & K4 & A4 & F4).
+    destruct (add_arm_props a st) as (E4 & A4 & F4).
     split; [|split; [discriminate|split; [exact A4|exact F4]]].
     eapply ext_mono; [|exact E4]. intros k t [].
 Qed.
@@ -137,7 +165,7 @@ Qed.
 Lemma ser_fold use_phf ci idx ps lits : forall st,
   let st' := fold_left (fs_serialization use_phf ci idx ps) lits st in
   ext (QS use_phf ci idx ps lits) st st' /\
-  (use_phf = true -> forall l, In l lits -> In l (st_keys st')) /\
+  (use_phf = true -> forall l, In l lits -> covered l st') /\
   st_arms st' = st_arms st ++ arms_of use_phf ci idx ps lits /\
   same_fall st st'.
 Proof.
@@ -166,7 +194,7 @@ Definition sf_fld (sg : single) : option str :=
 
 Definition set_default (st : fs_state) (idx : nat) (fld : option str) : fs_state :=
   {| st_default_seen := true; st_fall := FDefault idx fld; st_custom_err := false;
-     st_keys := st_keys st; st_phf := st_phf st; st_arms := st_arms st |}.
+     st_keys := st_keys st; st_ci := st_ci st; st_phf := st_phf st; st_arms := st_arms st |}.
 
 Lemma fs_variant_shape tp st idx v st' : fs_variant tp st idx v = Ok st' ->
   exists p, vprops_of v = Ok p /\
@@ -215,7 +243,7 @@ Lemma fs_loop_main tp : forall vs st idx st', fs_loop tp st idx vs = Ok st' ->
   st_arms st' = st_arms st ++ all_arms tp idx vs /\
   (forall n v p, nth_error vs n = Some v -> vprops_of v = Ok p -> eligible_b p = true ->
      exists ps, fs_params p (v_fields v) = Ok ps /\
-       (tp_phf tp = true -> forall l, In l (vspell tp p) -> In l (st_keys st'))).
+       (tp_phf tp = true -> forall l, In l (vspell tp p) -> covered l st')).
 Proof.
   induction vs as [|v r IH]; intros st idx st' H; cbn [fs_loop] in H.
   - inversion H; subst. split; [apply ext_refl|]. split; [cbn; rewrite app_nil_r; reflexivity|].
@@ -228,10 +256,10 @@ Proof.
       split; [exact U|]. exists (S n), v', p', l. split; [lia|]. split; [exact H2|exact H3]. }
     assert (K : ext (QL tp idx (v :: r)) st st1 /\ st_arms st1 = st_arms st ++ varms tp idx v /\
                 (eligible_b p = true -> exists ps, fs_params p (v_fields v) = Ok ps /\
-                   (tp_phf tp = true -> forall l, In l (vspell tp p) -> In l (st_keys st1)))).
+                   (tp_phf tp = true -> forall l, In l (vspell tp p) -> covered l st1))).
     { unfold varms. rewrite Hp. destruct Hs as [(D & ->) | [(D & Df & Sn & sg & SF & ->) | (El & ps & P & ->)]].
       - split; [apply ext_refl|]. unfold eligible_b. rewrite D. cbn. rewrite app_nil_r. split; [reflexivity|discriminate].
-      - split; [constructor; unfold keys_ok, set_default; cbn [st_keys st_phf]; auto|].
+      - split; [constructor; unfold keys_ok, covered, shadowed, ci_ok, set_default; cbn [st_keys st_phf st_ci st_arms]; auto|].
         unfold eligible_b. rewrite D, Df. cbn. rewrite app_nil_r. split; [reflexivity|discriminate].
       - rewrite El, P. destruct (ser_fold (tp_phf tp) (vci tp p) idx ps (vspell tp p) st) as (E1 & I1 & A1 & _).
         cbn zeta in *. split; [|split; [exact A1|]].
@@ -376,7 +404,7 @@ Definition init_ok (tp : tprops) (st0 : fs_state) : Prop :=
 
 Lemma gen_char it c : gen_from_str it = Ok c ->
   exists tp st0 st, tprops_of it = Ok tp /\ init_ok tp st0 /\
-    st_default_seen st0 = false /\ st_keys st0 = [] /\ st_phf st0 = [] /\ st_arms st0 = [] /\
+    st_default_seen st0 = false /\ st_keys st0 = [] /\ st_phf st0 = [] /\ st_arms st0 = [] /\ st_ci st0 = [] /\
     fs_loop tp st0 0 (i_variants it) = Ok st /\
     fs_phf c = st_phf st /\ fs_arms c = st_arms st /\ fs_fall c = st_fall st /\ fs_custom_err c = st_custom_err st.
 Proof.
@@ -397,7 +425,8 @@ Record gen_facts (it : item) (c : from_str_code) (tp : tprops) : Prop := {
         fs_params p (v_fields v) = Ok ps /\ In l (vspell tp p) /\ lit_matches (vci tp p) k l = true;
   gf_params : fsp_ok (i_variants it);
   gf_keys : tp_phf tp = true -> forall n v p, nth_error (i_variants it) n = Some v -> vprops_of v = Ok p ->
-      eligible_b p = true -> forall l, In l (vspell tp p) -> assoc_key l (fs_phf c) <> None;
+      eligible_b p = true -> forall l, In l (vspell tp p) ->
+      assoc_key l (fs_phf c) <> None \/ exists a, In a (fs_arms c) /\ arm_matches l a = true;
   gf_fall : (fs_fall c, fs_custom_err c) =
       match find_default 0 (i_variants it) with
       | Some (k, fld) => (FDefault k fld, false)
@@ -411,11 +440,12 @@ Record gen_facts (it : item) (c : from_str_code) (tp : tprops) : Prop := {
 
 Lemma gen_facts_of it c tp : gen_from_str it = Ok c -> tprops_of it = Ok tp -> gen_facts it c tp.
 Proof.
-  intros G T. destruct (gen_char it c G) as (tp' & st0 & st & T' & I & Sn & K0 & P0 & A0 & L & Ep & Ea & Ef & Ec).
+  intros G T. destruct (gen_char it c G) as (tp' & st0 & st & T' & I & Sn & K0 & P0 & A0 & C0 & L & Ep & Ea & Ef & Ec).
   rewrite T in T'. inversion T'; subst tp'. clear T'.
   destruct (fs_loop_main tp _ _ _ _ L) as (E & A & C).
   pose proof (fs_loop_fall tp _ _ _ _ L Sn) as F.
   assert (OK : keys_ok st). { apply (e_ok _ _ _ E). intro k. rewrite K0, P0. cbn. tauto. }
+  assert (CI : ci_ok st). { apply (e_ci _ _ _ E). intros k Hk. rewrite C0 in Hk. destruct Hk. }
   constructor.
   - rewrite Ea, A, A0. reflexivity.
   - intros k j ps H. rewrite Ep in H. destruct (e_phf _ _ _ E _ _ H) as [H1|H1]; [rewrite P0 in H1; destruct H1|].
@@ -423,7 +453,11 @@ Proof.
     split; [exact U|]. exists v, p, l. repeat split; auto.
   - intros n v p Hn Hp El. destruct (C n v p Hn Hp El) as (ps & P & _). eauto.
   - intros U n v p Hn Hp El l Hl. destruct (C n v p Hn Hp El) as (ps & P & I'). rewrite Ep.
-    apply assoc_key_in. apply OK. apply I'; assumption.
+    destruct (I' U l Hl) as [K|S].
+    + left. apply assoc_key_in. apply OK. exact K.
+    + right. unfold shadowed in S. apply existsb_exists in S as (k & Hk & M).
+      destruct (CI k Hk) as (j & qs & Ia). exists (ArmGuard k j qs). rewrite Ea. split; [exact Ia|].
+      cbn [arm_matches]. rewrite eq_ic_str_sym. exact M.
   - rewrite Ef, Ec, F. unfold fall_of_default. destruct (find_default 0 (i_variants it)) as [[k fld]|]; [reflexivity|].
     destruct I as [(I1 & I2 & I3 & I4) | (t & f & I1 & I2 & I3 & I4)]; rewrite I1, ?I2, I3, I4; reflexivity.
   - destruct I as [(-> & -> & _) | (t & f & -> & -> & _)]; reflexivity.
@@ -531,13 +565,14 @@ Proof.
   intros G T [Hn Hp] El Mt. destruct (gen_facts_of it c tp G T) as [FA FP FS FK FF FE].
   unfold run_from_str. destruct (assoc_key s (fs_phf c)) as [[j qs]|] eqn:A; [eauto|].
   rewrite FA. pose proof (all_arms_first tp s (i_variants it) 0 FS) as R.
-  destruct (find (arm_matches s) (all_arms tp 0 (i_variants it))) as [a|].
+  destruct (find (arm_matches s) (all_arms tp 0 (i_variants it))) as [a|] eqn:Fd.
   - destruct (arm_target a) as [j qs]. eauto.
   - exfalso. cbn [arms_res] in R. specialize (R i v p Hn Hp). rewrite El, Mt in R. cbn in R.
     rewrite andb_true_r in R. unfold armable in R. apply orb_false_iff in R as [U Ci].
     apply negb_false_iff in U. unfold matches_b in Mt. apply existsb_exists in Mt as (l & Hl & M).
     rewrite Ci in M. cbn in M. apply str_eqb_spec in M. subst l.
-    exact (FK U i v p Hn Hp El s Hl A).
+    destruct (FK U i v p Hn Hp El s Hl) as [K|(a & Ia & Ma)]; [exact (K A)|].
+    rewrite FA in Ia. rewrite (find_none _ _ Fd a Ia) in Ma. discriminate.
 Qed.
 
 Lemma run_fallthrough it c tp s :
